@@ -369,3 +369,68 @@ class RecPlt:
         def f(*a, **k):
             return _Dummy()
         return f
+
+
+# ------------------------------------------------------------------------------------------------
+# scipy.optimize.curve_fit / minimize
+#
+# contract (scipy documentation): curve_fit(f, xdata, ydata, p0, sigma=None, bounds=(-inf, inf)) returns (popt, pcov)
+# with len(popt) == len(p0); minimize(fun, x0, method, bounds, constraints, options) returns a result with .x,
+# .success, .message.  The optimum itself is an arbitrary vector (fresh symbols): optimiser quality is not modelled.
+
+
+class OptimizerLog:
+    """recording stand-in for curve_fit and minimize, usable in symbolic and concrete mode"""
+
+    def __init__(self, h, real_curve_fit=None, real_minimize=None):
+        self.h = h
+        self.calls = []
+        self.real_curve_fit = real_curve_fit
+        self.real_minimize = real_minimize
+
+    def _fresh(self, n, tag):
+        k = len(self.calls)
+        return [SR(z3.Real(f"{tag}{k}_{i}")) for i in range(n)]
+
+    def curve_fit(self, f, xdata, ydata, p0=None, sigma=None, bounds=(-np.inf, np.inf), **kw):
+        rec = {"kind": "curve_fit", "f": f, "x": xdata, "y": ydata, "p0": None if p0 is None else tuple(p0),
+               "sigma": sigma, "bounds": bounds, "kw": kw}
+        if self.h.sym:
+            popt = np.empty(len(p0), dtype=object)
+            popt[:] = self._fresh(len(p0), "popt")
+            popt = popt.view(SymArray)
+            pcov = None
+        else:
+            popt, pcov = self.real_curve_fit(f, xdata, ydata, p0, sigma=sigma, bounds=bounds, **kw)
+        rec["popt"] = popt
+        self.calls.append(rec)
+        return popt, pcov
+
+    def minimize(self, fun, x0, args=(), method=None, bounds=None, constraints=(), options=None, **kw):
+        rec = {"kind": "minimize", "fun": fun, "x0": tuple(x0), "method": method, "bounds": bounds,
+               "constraints": constraints, "options": options, "kw": kw}
+        if self.h.sym:
+            x = np.empty(len(x0), dtype=object)
+            x[:] = self._fresh(len(x0), "xopt")
+
+            class R:
+                pass
+
+            r = R()
+            r.x, r.success, r.message = x.view(SymArray), True, "stub"
+        else:
+            r = self.real_minimize(fun, x0, args=args, method=method, bounds=bounds, constraints=constraints,
+                                   options=options, **kw)
+        rec["x"] = r.x
+        self.calls.append(rec)
+        return r
+
+
+@contextlib.contextmanager
+def optimizer_stubs(h):
+    """rebinding of virocon._fitting.curve_fit / minimize for one harness (both modes)"""
+    from . import shim
+    F = shim.mod("_fitting")
+    log = OptimizerLog(h, real_curve_fit=F.curve_fit, real_minimize=F.minimize)
+    with patch_attr(F, "curve_fit", log.curve_fit), patch_attr(F, "minimize", log.minimize):
+        yield log
